@@ -126,8 +126,51 @@ func deepApp(loadPerLevel bool, big int) *app.App {
 	return a
 }
 
+// runC07Wide: a wizard - a chain of nodes that each load three symbols of their own, so that the session holds dozens
+// to hundreds of distinct live symbols (no single scope is large).
+func runC07Wide(c *vk.Ctx) {
+	for i, depth := range []int{12, 40, 100} {
+		key := fmt.Sprintf("wide/%d", depth)
+		if !c.Mine(i+5) || !c.Want(key) {
+			continue
+		}
+		a := app.NewApp()
+		a.FlagCount = 1
+		for k := 0; k < depth; k++ {
+			name := fmt.Sprintf("w%d", k)
+			if k == 0 {
+				name = "root"
+			}
+			var code []codec.Ins
+			for _, f := range []string{"a", "b", "c"} {
+				sym := fmt.Sprintf("%s%d", f, k)
+				code = append(code, codec.Ins{Op: codec.LOAD, S1: sym, N: 40})
+				a.Funcs[sym] = &app.FuncSpec{Sym: sym, Kind: "id"}
+			}
+			code = append(code, codec.Ins{Op: codec.MAP, S1: fmt.Sprintf("a%d", k)}, codec.Ins{Op: codec.MOUT, S1: "next", S2: "1"}, codec.Ins{Op: codec.MOUT, S1: "back", S2: "0"}, codec.Ins{Op: codec.HALT})
+			if k+1 < depth {
+				code = append(code, codec.Ins{Op: codec.INCMP, S1: fmt.Sprintf("w%d", k+1), S2: "1"})
+			}
+			code = append(code, codec.Ins{Op: codec.INCMP, S1: "_", S2: "0"})
+			a.AddNode(&app.Node{Name: name, Code: code, Template: fmt.Sprintf("step %d {{.a%d}}", k, k)})
+		}
+		a.AddNode(&app.Node{Name: "_catch", Template: "catch page", Code: []codec.Ins{{Op: codec.HALT}, {Op: codec.INCMP, S1: "_", S2: "*"}}})
+		a.Finalize()
+		cfg := app.Config{FlagCount: 1, SessionId: "wide", Root: "root"}
+		hist := []string{""}
+		for k := 1; k < depth; k++ {
+			hist = append(hist, "1")
+		}
+		hist = append(hist, "0", "0", "1", "x", "0")
+		c.Begin(key)
+		c07Compare(c, key, a, cfg, hist, false)
+		c.Count("wide_histories", 1)
+	}
+}
+
 func runC07(c *vk.Ctx) {
 	runC07Deep(c)
+	runC07Wide(c)
 	runC07SinkReuse(c)
 	n := c.N(1600, 60000)
 	for i := 0; i < n; i++ {
